@@ -2005,4 +2005,105 @@ theorem mapM_congr' {α β} {f f' : α → M β} {l : List α} (h : ∀ a ∈ l,
     rw [h a List.mem_cons_self, ih (fun b hb => h b (List.mem_cons_of_mem _ hb))]
 
 
+/-- the placed section in closed form -/
+theorem stepPlace_eq (c : Cls) (g : Seg) (ss : BitVec 64) (sec : SecBuf) (p : BitVec 64) :
+    stepPlace c g ss sec p =
+      { sec with addr := if sec.addrSet then sec.addr else truncA c (wsd_new_addr g.vaddr p ss),
+                 addrSet := true,
+                 offset := if (sec.index != 0) = true then truncA c p else sec.offset } := by
+  unfold stepPlace setOffset
+  cases ha : sec.addrSet
+  · by_cases hi : (sec.index != 0) = true
+    · simp only [Bool.not_false, if_true, hi, Bool.false_eq_true, if_false]
+    · simp only [Bool.not_false, if_true, hi, Bool.false_eq_true, if_false]
+  · by_cases hi : (sec.index != 0) = true
+    · simp only [Bool.not_true, Bool.false_eq_true, if_false, hi, if_true]
+      rw [← ha]
+    · simp only [Bool.not_true, Bool.false_eq_true, if_false, hi, if_true]
+      cases sec; simp_all
+
+
+/-! ### generated sections are never touched again -/
+
+theorem stepCore_true_not_placed (c : Cls) (g : Seg) (ss : BitVec 64) (sec : SecBuf) (pos mem file : BitVec 64)
+    (s : SecBuf) (p m f : BitVec 64) : stepCore c g ss sec true pos mem file ≠ .placed s p m f := by
+  unfold stepCore
+  split
+  · intro h; cases h
+  · split
+    · intro h; cases h
+    · simp only [if_true]; intro h; cases h
+
+theorem stepCore_false_not_counted (c : Cls) (g : Seg) (ss : BitVec 64) (sec : SecBuf) (pos mem file : BitVec 64)
+    (m f : BitVec 64) : stepCore c g ss sec false pos mem file ≠ .counted m f := by
+  unfold stepCore
+  split
+  · intro h; cases h
+  · split
+    · intro h; cases h
+    · simp only [Bool.false_eq_true, if_false]; intro h; cases h
+
+/-- a successful step in its pieces -/
+theorem wsdStep_ok {c : Cls} {g : Seg} {ss : BitVec 64} {st st' : WsdSt} {idx : BitVec 16}
+    (h : wsdStep c g ss st idx = .ok (some st')) :
+    ∃ sec gen, st.lay.secs[idx.toNat]? = some sec ∧ st.lay.gen[idx.toNat]? = some gen ∧
+      applyOut st idx.toNat (stepCore c g ss sec gen st.lay.pos st.mem st.file) = some st' := by
+  rw [wsdStep_eq] at h
+  cases hs : st.lay.secs[idx.toNat]? with
+  | none => rw [hs] at h; cases h
+  | some sec =>
+    cases hg : st.lay.gen[idx.toNat]? with
+    | none => rw [hs, hg] at h; cases h
+    | some gen =>
+      rw [hs, hg] at h
+      simp only [pure, Except.pure, Except.ok.injEq] at h
+      exact ⟨sec, gen, rfl, rfl, h⟩
+
+theorem wsdStep_stable {c : Cls} {g : Seg} {ss : BitVec 64} {st st' : WsdSt} {idx : BitVec 16}
+    (h : wsdStep c g ss st idx = .ok (some st')) (i : Nat) (hg : st.lay.gen[i]? = some true) :
+    st'.lay.secs[i]? = st.lay.secs[i]? ∧ st'.lay.gen[i]? = some true := by
+  obtain ⟨sec, gen, hs, hgen, ha⟩ := wsdStep_ok h
+  cases ho : stepCore c g ss sec gen st.lay.pos st.mem st.file with
+  | abort => rw [ho] at ha; cases ha
+  | null =>
+    rw [ho] at ha; simp only [applyOut, Option.some.injEq] at ha; subst ha
+    refine ⟨rfl, ?_⟩
+    simp only [List.getElem?_set]
+    split
+    · split
+      · rfl
+      · rename_i h1 h2; subst h1; rw [List.getElem?_eq_none (by omega)] at hg; cases hg
+    · exact hg
+  | counted m f =>
+    rw [ho] at ha; simp only [applyOut, Option.some.injEq] at ha; subst ha
+    exact ⟨rfl, hg⟩
+  | placed s p m f =>
+    rw [ho] at ha; simp only [applyOut, Option.some.injEq] at ha; subst ha
+    have hne : idx.toNat ≠ i := by
+      intro e; subst e
+      rw [hgen] at hg
+      simp only [Option.some.injEq] at hg
+      subst hg
+      exact stepCore_true_not_placed c g ss sec _ _ _ s p m f ho
+    simp only
+    exact ⟨by rw [List.getElem?_set_ne hne], by rw [List.getElem?_set_ne hne]; exact hg⟩
+
+theorem wsdLoop_stable {c : Cls} {g : Seg} {ss : BitVec 64} (l : List (BitVec 16)) {st st' : WsdSt}
+    (h : wsdLoop c g ss l st = .ok (some st')) (i : Nat) (hg : st.lay.gen[i]? = some true) :
+    st'.lay.secs[i]? = st.lay.secs[i]? ∧ st'.lay.gen[i]? = some true := by
+  induction l generalizing st with
+  | nil => simp only [wsdLoop, pure, Except.pure, Except.ok.injEq, Option.some.injEq] at h; subst h; exact ⟨rfl, hg⟩
+  | cons idx rest ih =>
+    simp only [wsdLoop, bind, Except.bind] at h
+    cases h1 : wsdStep c g ss st idx with
+    | error e => rw [h1] at h; cases h
+    | ok r =>
+      rw [h1] at h
+      cases r with
+      | none => cases h
+      | some st1 =>
+        obtain ⟨a1, a2⟩ := wsdStep_stable h1 i hg
+        obtain ⟨b1, b2⟩ := ih h a2
+        exact ⟨b1.trans a1, b2⟩
+
 end ElfioVerif
